@@ -19,9 +19,12 @@ def main():
     lang, out_path, seed, runs = sys.argv[1], sys.argv[2], int(sys.argv[3]), int(sys.argv[4])
     max_len = int(sys.argv[5]) if len(sys.argv) > 5 else 2048
     repo = os.environ.get("LIAN_REPO", "/repo")
-    for p in (os.path.join(repo, "src"), HERE, os.path.join(HERE, ".deps")):
+    for p in (os.path.join(repo, "src"), HERE):
         if p not in sys.path:
             sys.path.insert(0, p)
+    deps = os.path.join(HERE, ".deps")      # pip install --target /verif/.deps atheris  (DESIGN.md section 1)
+    if deps not in sys.path:
+        sys.path.append(deps)               # last: only what /venv does not have is taken from there
     state = {"execs": 0, "buckets": {}, "outcomes": {}, "status": "running", "lang": lang, "nontrivial": 0}
 
     def flush():
